@@ -679,6 +679,23 @@ class Task:
         for ch in self.children:
             ch._attach(wbs)
 
+    def _detach(self):
+        """Forget the owner WBS (for this task and all of its children)"""
+        if self.__wbs is None:
+            return
+        self.__wbs = None
+        for ch in self.__children:
+            ch._detach()
+
+    def __check_no_links_with(self, new_parent: 'Task'):
+        """Tasks of this subtree must not depend on (or be a dependency of) their future parents"""
+        parents_object_ids = set([id(new_parent)] + [id(t) for t in new_parent.all_parents])
+        for t in [self] + self.__get_all_children():
+            for linked in t.__predecessors + t.__successors:
+                if id(linked) in parents_object_ids:
+                    raise RuntimeError(f"Task {t.id} is linked with task {linked.id}. "
+                                       f"Can't make predecessor or successor a parent")
+
     @property
     def id(self) -> Union[int, str]:
         return self.__id
@@ -723,6 +740,9 @@ class Task:
         :param parent: new parent
         """
 
+        if parent is self:
+            raise RuntimeError(f"Task {self.id} can't be a parent of itself")
+
         if self.__wbs is None:
             # Check parent changed
             if parent is not None and (self.parent is None or id(self.parent) != id(parent)):
@@ -737,20 +757,21 @@ class Task:
             if parent in self.all_children:
                 raise RuntimeError(f"Task {parent.id} is a child of task {self.id}. Can't make child "
                                    f"a parent of its parent")
+            self.__check_no_links_with(parent)
+
+        if parent is None and self.__wbs is not None:
+            # A task of a WBS without parent is a root task of this WBS
+            parent = self.__wbs._root()
 
         if self.__parent is not None and self in self.__parent.__children:
             self.__parent.__children.remove(self)
 
         if parent is None:
-            if self.__wbs is not None:
-                self.__wbs._root().children.append(self)
-            else:
-                self.__parent = None
-
+            self.__parent = None
         else:
             self.__parent = parent
             self._attach(parent.__wbs)
-            if parent and self not in parent.__children:
+            if self not in parent.__children:
                 parent.__children.append(self)
 
     @property
